@@ -266,3 +266,32 @@ Example C09_nonvacuous_order_Q :
   (forall a b, nltb num_Q a b = true -> (a <= b)%Q) /\ (forall a b, nltb num_Q a b = false -> (b <= a)%Q).
 Proof. split; [exact Q_lt_le | exact Q_nlt_ge]. Qed.
 Print Assumptions C09_nonvacuous_order_Q.
+
+(* (1f) restart semantics along the trace of a whole run: for every two consecutive block attempts,
+   the later one starts at the time of the first restarted step of the earlier one and from that step's
+   u[0] (or, if nothing was restarted, at the end of the last step from its uend) *)
+Theorem C09_run_restart_semantics : forall T (N : num T) c pre t0 np script trs o k,
+  order_ok c pre -> script_ok np script ->
+  run N c t0 np script = (trs, o) -> S k < length trs ->
+  let b := nth k trs bt0 in
+  let b' := nth (S k) trs bt0 in
+  let a := nth k script (att0 T) in
+  let n := length (bt_post b) in
+  match first_true (map (@s_restart T) (bt_post b)) with
+  | Some j =>
+      (forall i, i < j -> nth i (map (@s_restart T) (bt_post b)) true = false) /\
+      nth 0 (g_times (bt_pre b')) (n0 N) = nth j (g_times (bt_pre b)) (n0 N) /\
+      bt_next b = nth j (a_u0s a) (-1)%Z
+  | None =>
+      nth 0 (g_times (bt_pre b')) (n0 N) =
+        nadd N (nth (n - 1) (g_times (bt_pre b)) (n0 N)) (nth (n - 1) (g_dts (bt_pre b)) (n0 N)) /\
+      bt_next b = nth (n - 1) (a_uends a) (-1)%Z
+  end.
+Proof. exact (@run_restart_semantics). Qed.
+Print Assumptions C09_run_restart_semantics.
+
+(* the aliasing of the per-step counter updates, on a concrete block (documented quirk; C09_counter_first_slot
+   shows that the counter that matters, the one of the first slot, comes out right all the same) *)
+Example C09_counter_aliasing : riar_update 3 [false; true; true] [0; 2; 5] = [1; 6; 5].
+Proof. exact counter_aliasing. Qed.
+Print Assumptions C09_counter_aliasing.
